@@ -100,7 +100,14 @@ func runC11(c *Ctx) {
 	}
 
 	// ---- O2: failing Bind ⇒ Rollback
-	bindCalls := instrsIn(reconcile, isInvokeNamed("Bind"))
+	// the attempt may live in a helper of Reconcile: it is searched through the functions Reconcile calls; the
+	// failure analysis is then made where the call is, the guards are collected along the call chain
+	var bindCalls []ssa.Instruction
+	bindHit := map[ssa.Instruction]deepHit{}
+	for _, h := range p.deepFind(reconcile, isInvokeNamed("Bind"), 2) {
+		bindCalls = append(bindCalls, h.In)
+		bindHit[h.In] = h
+	}
 	c.Floor("O2", "MPT Bind calls in Reconcile", len(bindCalls), 1)
 	for _, bc := range bindCalls {
 		ok, why := failureCleanup(fx, bc.(*ssa.Call), isInvokeNamed("Rollback"))
@@ -143,13 +150,14 @@ func runC11(c *Ctx) {
 			_, pth, fnd := reachAvoiding([]cfgPos{entryPos(rollback)}, isReturn, isInvokeNamed(step), func(from, to *ssa.BasicBlock) bool {
 				return !fx.edgeEstablishes(from, to, func(f Fact) bool { return !f.Pol && isCallNamed(f.T, "IsSharedGPUAllocation") })
 			})
-			has := len(instrsIn(rollback, isInvokeNamed(step))) > 0
+			has := len(p.deepFind(rollback, isInvokeNamed(step), 2)) > 0
 			c.Check(has && !fnd, "O3", "MPT", funcKey(rollback)+": "+step+" on every shared-GPU rollback", rollback.Pos(), "errors are joined, never short-circuit", "Rollback can return for a shared-GPU request without "+step+" (an earlier failing step short-circuits it): "+pathStr(pth))
 		}
 	}
 	for _, fn := range []*ssa.Function{bind, rollback} {
-		for _, in := range instrsIn(fn, isInvokeNamed("SyncForNode")) {
-			t := termOf(in.(ssa.CallInstruction).Common().Args[1])
+		for _, h := range p.deepFind(fn, isInvokeNamed("SyncForNode"), 2) {
+			in := h.In
+			t := liftTerm(termOf(in.(ssa.CallInstruction).Common().Args[1]), h.Chain)
 			c.Check(strings.HasSuffix(t.String(), ".Spec.SelectedNode"), "O3", "PROV", funcKey(fn)+": SyncForNode(SelectedNode)", instrPos(in), t.String(), "the reservation sync is run for "+t.String()+" instead of the node selected in the BindRequest (an unbound pod has no node name): reservation pods of the failed attempt stay on the selected node")
 		}
 	}
@@ -171,7 +179,7 @@ func runC11(c *Ctx) {
 
 	// ---- O4: when Bind is attempted; status always reported
 	for _, bc := range bindCalls {
-		fs := fx.FactsAt(bc)
+		fs := fx.factsAtDeep(bindHit[bc])
 		_, live := hasFact(fs, func(f Fact) bool {
 			return f.Pol && f.T.Op == "bin" && f.T.Name == "==" && strings.HasSuffix(f.T.Args[0].String(), "DeletionTimestamp") && f.T.Args[1].isNilConst()
 		})
@@ -188,7 +196,7 @@ func runC11(c *Ctx) {
 		okDefer := false
 		for _, b := range reconcile.Blocks {
 			for _, in := range b.Instrs {
-				if d, isD := in.(*ssa.Defer); isD && dominatesInstr(d, bc) {
+				if d, isD := in.(*ssa.Defer); isD && dominatesInstr(d, bindHit[bc].rootSite()) {
 					if mc, isMC := d.Call.Value.(*ssa.MakeClosure); isMC {
 						g := mc.Fn.(*ssa.Function)
 						if len(instrsIn(g, func(x ssa.Instruction) bool {
@@ -301,7 +309,20 @@ func runC11(c *Ctx) {
 				return false
 			}, nil)
 			// a path that skips the UnAllocate call but passes its loop with zero iterations is fine; require the loop to exist
-			hasLoop := len(instrsIn(kp, isInvokeNamed("UnAllocate"))) > 0
+			hasLoop := false
+			for _, h := range p.deepFind(kp, isInvokeNamed("UnAllocate"), 2) {
+				lh := loopHeaderOf(h.In.Block())
+				if lh == nil {
+					continue
+				}
+				at := h.rootSite()
+				if len(h.Chain) == 0 {
+					at = lh.Instrs[0] // the loop may run zero times: it is its header that lies on the error path
+				}
+				if dominatesInstr(at, ret) {
+					hasLoop = true
+				}
+			}
 			_ = path
 			_ = found
 			c.Check(hasLoop, "O5", "MPT", funcKey(kp)+": earlier plugins are un-allocated when a later one fails", instrPos(ret), "UnAllocate loop on the error path", "a failing k8s plugin leaves the allocations of the plugins that already ran")
@@ -340,7 +361,7 @@ func checkRecoverSetsErr(c *Ctx, g *ssa.Function) {
 				return !f.Pol && f.T.Op == "bin" && f.T.Name == "==" && strings.Contains(f.T.Args[0].String(), "recover") && f.T.Args[1].isNilConst()
 			}) {
 				n++
-				_, path, found := reachAvoiding([]cfgPos{{s, 0}}, func(x ssa.Instruction) bool { return x == upd[0] }, func(x ssa.Instruction) bool {
+				_, path, found := reachAvoiding([]cfgPos{{B: s, I: 0}}, func(x ssa.Instruction) bool { return x == upd[0] }, func(x ssa.Instruction) bool {
 					st, ok := x.(*ssa.Store)
 					return ok && errFV != nil && st.Addr == ssa.Value(errFV)
 				}, nil)
